@@ -267,6 +267,43 @@ def run(ck, facts):
                           "whatever the previous item left there is printed into this item's file" % (root, ".".join(path), what, root), C.loc(f, lp.get("ln")))
     if n5 < 2:
         ck.bad("R5", "floor", "only %d (loop, scratch buffer) pairs found (2 counted: kotlin::run types/traits x callback_params)" % n5)
+    # a collection that is filled for an item AND read into that item's output lives inside the item loop: declared outside it, it carries what earlier
+    # items put there into every later item's file (a type's file then depends on unrelated types)
+    n5b = 0
+    for f in tool.fn_list:
+        if f.get("dk") == "Closure" or "hir" not in f:
+            continue
+        if not re.search(r"^diplomat_tool::(c|cpp|js|dart|kotlin|nanobind|demo_gen)(::\w+)*::(run|gen|run_gen)$", C.norm_path(f["path"])):
+            continue
+        body_ = C.fn_body(f)
+        for lp in C.enclosing_loops(body_):
+            if lp.get("k") != "for" or not any((C.callee(x) or "").endswith(("all_types", "all_traits")) for x in C.calls_in(lp["iter"])):
+                continue
+            inside = {id(x) for x in C.walk(lp["body"])}
+            outer = {}
+            for n_ in C.walk(body_):
+                if n_.get("k") == "letst" and id(n_) not in inside and isinstance(n_.get("pat"), dict) and n_["pat"].get("k") == "bind" and "Mut" in (n_["pat"].get("mode") or ""):
+                    ini = C.strip(n_.get("init") or {})
+                    if ini.get("k") in ("call", "mcall", "macro") and re.search(r"(BTreeSet|BTreeMap|HashSet|HashMap|Vec|String)\b.*::(new|default|with_capacity)$|^vec$", (C.callee(ini) or ini.get("name") or "")):
+                        outer[n_["pat"]["id"]] = n_["pat"]["n"]
+            if not outer:
+                continue
+            muts = {}
+            for r, path, kind, node in C.mutations(lp["body"]):
+                if r is not None and r.get("id") in outer and not path:
+                    muts.setdefault(r["id"], set()).add(id(node))
+                    for y in C.walk(node):
+                        muts[r["id"]].add(id(y))
+            what = "traits" if any((C.callee(x) or "").endswith("all_traits") for x in C.calls_in(lp["iter"])) else "types"
+            for lid, nm in sorted(outer.items(), key=lambda kv: kv[1]):
+                if lid not in muts:
+                    continue
+                n5b += 1
+                reads = [x for x in C.walk(lp["body"]) if x.get("k") == "local" and x.get("id") == lid and id(x) not in muts[lid]]
+                ck.expect(not reads, "R5", "%s/loop-over-%s/%s-accumulates-only" % (C.norm_path(f["path"]).replace("diplomat_tool::", ""), what, nm), "filled per item, read after the loop",
+                          "`%s` is created once before the loop over %s, filled for each item and also read inside the loop (into that item's output): every item's file contains what "
+                          "earlier, unrelated items put there" % (nm, what), C.loc(f, lp.get("ln")))
+    ck.note("R5: %d collections created outside an item loop and filled inside it; none is read inside the loop" % n5b)
 
     # ---------------- R4 (cont.) generated files replace whatever was there: whole-file writes only
     writers = []
